@@ -40,6 +40,11 @@ type c07Case struct {
 	// earlier accepted transfer can leave behind) that makes one of the receiver's
 	// own file-system operations fail; see c07Prestate
 	Pre string `json:"pre,omitempty"`
+	// Rel != "": the entry that carries the string has a harmless twin entry in
+	// the same manifest (same rel_path, same path in another spelling, same item
+	// id); BeginKey: which entry's file key the FileBegin names; see c07_rel.go
+	Rel      string `json:"entry_relation,omitempty"`
+	BeginKey string `json:"filebegin_key,omitempty"`
 }
 
 // jailSnapshot records (kind, size, mtime, sha256) of everything under jail
@@ -180,6 +185,20 @@ func hostileMultistream(ctx context.Context, conn transfer.Conn, c c07Case, jail
 	m.TotalBytes += int64(c.Pad)
 	key := transfer.VerifCoreFileKey(it)
 	emptyKey := transfer.VerifCoreFileKey(empty)
+	beginKey, resumeID, emptyPath := key, it.ID, empty.RelPath
+	if c.Rel != "" {
+		sh := c07RelationShape(c, len(payload))
+		m.Items, beginPath, beginKey, key, resumeID, emptyPath, emptyKey = sh.items, sh.beginPath, sh.beginKey, sh.chunkKey, sh.resumeID, sh.emptyPath, sh.emptyKey
+		m.FileCount, m.FolderCount, m.TotalBytes = 0, 0, 0
+		for _, x := range m.Items {
+			if x.IsDir {
+				m.FolderCount++
+			} else {
+				m.FileCount++
+				m.TotalBytes += x.Size
+			}
+		}
+	}
 
 	ctrl, err := conn.OpenStream(ctx)
 	if err != nil {
@@ -195,17 +214,17 @@ func hostileMultistream(ctx context.Context, conn transfer.Conn, c c07Case, jail
 	}
 	defer data.Close()
 	_ = transfer.VerifCoreWriteDataStreams(ctrl, transfer.DataStreams{Count: 1})
-	if _, err := ctrl.Write(rawFileBegin(beginPath, uint64(len(payload)), 16, key)); err != nil {
+	if _, err := ctrl.Write(rawFileBegin(beginPath, uint64(len(payload)), 16, beginKey)); err != nil {
 		return
 	}
-	_ = transfer.VerifCoreWriteResumeRequest(ctrl, transfer.ResumeRequest{FileID: it.ID, StreamID: key})
+	_ = transfer.VerifCoreWriteResumeRequest(ctrl, transfer.ResumeRequest{FileID: resumeID, StreamID: key})
 	if _, err := data.Write(chunkFrame(key, 0, payload[:16])); err != nil {
 		return
 	}
 	_, _ = data.Write(chunkFrame(key, 1, payload[16:]))
 	_ = transfer.VerifCoreWriteFileEnd(ctrl, transfer.FileEnd{StreamID: key})
 	// the zero-length file: FileBegin (chunk size set, as real senders do) and FileEnd
-	_, _ = ctrl.Write(rawFileBegin(empty.RelPath, 0, 16, emptyKey))
+	_, _ = ctrl.Write(rawFileBegin(emptyPath, 0, 16, emptyKey))
 	_ = transfer.VerifCoreWriteFileEnd(ctrl, transfer.FileEnd{StreamID: emptyKey})
 	// wait for FileDone (or an error / close)
 	done := make(chan struct{})
@@ -314,7 +333,7 @@ func attackStrings(jail string, r *vk.Rng, extra int) [][2]string {
 }
 
 func runC07(e *Env) {
-	e.R.Rule = "a hostile sender script feeds the real RecvManifestMultiStream (both root-dir modes, resume on/off) over loopback QUIC, the legacy RecvManifest and RecvFile, and the app's hasResumeData/clearResumeData, with one attacker string in one field (manifest.root, item.rel_path of file and directory items, item.id, FileBegin.rel_path, file name, offered root name): escaping strings, and well-formed names on which the receiver's own mkdir/create/rename fails (NAME_MAX boundary, names of its resume directory, sidecars and temp files, names of other items); plus harmless manifests received into an output directory where an earlier transfer left an entry of the wrong kind; the output directory is <jail>/a/out surrounded by canary files, directories and a foreign sidecar, the process's working directory is <cwdjail>/a/out with the same surroundings; monitor: snapshot (kind, size, mtime, sha256) of the jail minus out before vs after, and of the whole cwdjail after every case (cases during which it changed are run again alone in a fresh working directory and judged there); a case counts when the string reached the receiver; distinct by (target, field, string, mode, prior content)"
+	e.R.Rule = "a hostile sender script feeds the real RecvManifestMultiStream (both root-dir modes, resume on/off) over loopback QUIC, the legacy RecvManifest and RecvFile, and the app's hasResumeData/clearResumeData, with one attacker string in one field (manifest.root, item.rel_path of file and directory items, item.id, FileBegin.rel_path, file name, offered root name): escaping strings, and well-formed names on which the receiver's own mkdir/create/rename fails (NAME_MAX boundary, names of its resume directory, sidecars and temp files, names of other items); plus harmless manifests received into an output directory where an earlier transfer left an entry of the wrong kind; plus manifests in which the entry with the attacker string has a harmless twin entry (same rel_path in front of / behind / around it or as a directory entry, the same path in another spelling, the same item id) and the FileBegin names the file key of either entry or none; the output directory is <jail>/a/out surrounded by canary files, directories and a foreign sidecar, the process's working directory is <cwdjail>/a/out with the same surroundings; monitor: snapshot (kind, size, mtime, sha256) of the jail minus out before vs after, and of the whole cwdjail after every case (cases during which it changed are run again alone in a fresh working directory and judged there); a case counts when the string reached the receiver; distinct by (target, field, string, mode, prior content, entry relation, FileBegin key)"
 	lp, err := vk.NewListenerPool(16, 3*time.Second)
 	if err != nil {
 		e.R.Inconcl("listener pool: " + err.Error())
@@ -370,10 +389,16 @@ func runC07(e *Env) {
 	for _, c := range c07PrestateCases() {
 		add(c)
 	}
+	for _, c := range c07RelationCases(strs[:nHostile], e.Thorough()) {
+		add(c)
+	}
 	e.R.SetExtra("attack_strings", nHostile)
 	e.R.SetExtra("fs_failure_strings", len(strs)-nHostile)
 	var mu sync.Mutex
 	byField := map[string]int{}
+	byRel := map[string]int{}
+	byRelAccepted := map[string]int{}
+	var relReached sync.Map
 	escapes := map[string]int{}
 	// exec runs one case against a fresh jail and returns what changed outside
 	// the output directory inside that jail
@@ -435,6 +460,9 @@ func runC07(e *Env) {
 		}
 		after := jailSnapshot(jail, outDir)
 		d = diffSnap(before, after)
+		if c.Rel != "" && c07RelationReached(outDir, c) {
+			relReached.Store(c.ID, true)
+		}
 		for k := range d {
 			d[k] = strings.Replace(d[k], jail, "<jail>", 1)
 		}
@@ -455,6 +483,9 @@ func runC07(e *Env) {
 		if c.Pre != "" {
 			key += ":output-directory-with-" + c.Pre
 		}
+		if c.Rel != "" {
+			key += ":" + c.Rel
+		}
 		return key
 	}
 	vk.ParallelDo(len(cases), 16, func(i int) {
@@ -466,7 +497,7 @@ func runC07(e *Env) {
 			return
 		}
 		e.R.Eval()
-		e.R.Distinct(fmt.Sprintf("%s/%s/%s/nr%v/res%v/pad%d/pre:%s", c.Target, c.Field, c.StrName, c.NoRoot, c.Resume, c.Pad, c.Pre))
+		e.R.Distinct(fmt.Sprintf("%s/%s/%s/nr%v/res%v/pad%d/pre:%s/rel:%s/key:%s", c.Target, c.Field, c.StrName, c.NoRoot, c.Resume, c.Pad, c.Pre, c.Rel, c.BeginKey))
 		if c.Pad > 0 {
 			e.R.Count("large_manifest_cases")
 		}
@@ -476,7 +507,19 @@ func runC07(e *Env) {
 		if strings.HasPrefix(c.StrName, "fsfail-") {
 			e.R.Count("fs_failure_string_cases")
 		}
+		if c.Rel != "" {
+			e.R.Count("entry_relation_cases")
+			if note == "" {
+				e.R.Count("entry_relation_cases_accepted_by_the_receiver")
+			}
+		}
 		mu.Lock()
+		if c.Rel != "" {
+			byRel[c.Field+":"+c.Rel+":filebegin-key="+c.BeginKey]++
+			if _, ok := relReached.Load(c.ID); ok {
+				byRelAccepted[c.Field+":"+c.Rel]++
+			}
+		}
 		byField[c.Target+":"+c.Field]++
 		mu.Unlock()
 		if len(d) > 0 {
@@ -533,6 +576,11 @@ func runC07(e *Env) {
 	}
 	e.R.SetExtra("cases_by_target_field", byField)
 	e.R.SetExtra("escapes_by_key", escapes)
+	e.R.SetExtra("cases_by_entry_relation_and_filebegin_key", byRel)
+	e.R.SetExtra("manifests_with_twin_entries_acted_on_by_entry_relation", byRelAccepted)
+	e.R.Require(len(byRel) == c07RelationCombos(), fmt.Sprintf("only %d of the %d combinations (entry relation, FileBegin key) ran", len(byRel), c07RelationCombos()))
+	e.R.Require(e.R.Counter("entry_relation_cases") >= e.Pick(1500, 15000), "too few cases in which the hostile entry has a harmless twin entry (same path, same path in another spelling, same id)")
+	e.R.Require(len(byRelAccepted) == len(c07Relations), fmt.Sprintf("only for %d of the %d entry relations did the receiver act on a manifest with twin entries (harmless string in the field): in the others the manifests may be turned down for a reason other than the attacker string", len(byRelAccepted), len(c07Relations)))
 	e.R.Require(e.R.Counter("large_manifest_cases") >= e.Pick(60, 400), "too few cases with the hostile entry at the end of a large manifest")
 	e.R.Require(e.R.Counter("prestate_cases") >= 60, "too few cases with an output directory whose earlier content makes the receiver's own file operations fail")
 	e.R.Require(e.R.Counter("fs_failure_string_cases") >= 200, "too few cases with well-formed names that make the receiver's own file operations fail")
